@@ -31,6 +31,33 @@ fn sample(seed: u64, salt: u64, count: usize, cfg: &GenCfg, force: &dyn Fn(usize
     v
 }
 
+/// Every `every`-th program (2-8 branches, no options yet) runs its branches through a harness joiner that
+/// suits its macro kind: the property must hold with `custom_joiner(..)` / `lazy_branches(..)` too.
+fn sprinkle_joiners(progs: &mut [Prog], every: usize) {
+    for (i, p) in progs.iter_mut().enumerate() {
+        if i % every != every - 1 || p.branches.len() < 2 || p.branches.len() > 8 || p.opts != Opts::default() {
+            continue;
+        }
+        let k = p.kind();
+        if !k.is_async && !k.is_spawn {
+            if (i / every) % 2 == 0 {
+                p.opts.joiner = Some("jv_join".to_string());
+                p.opts.order = vec![1];
+            } else {
+                p.opts.joiner = Some("jv_join_lazy".to_string());
+                p.opts.lazy = Some(true);
+                p.opts.order = vec![3, 1];
+            }
+        } else if !k.is_async {
+            p.opts.joiner = Some("jv_join".to_string());
+            p.opts.order = vec![1];
+        } else if p.flavor == Flavor::Res {
+            p.opts.joiner = Some(if k.is_try { "jv_atry" } else { "jv_ajoin" }.to_string());
+            p.opts.order = vec![1];
+        }
+    }
+}
+
 fn base_check(id: &str, mode: &str, level: &str) -> GridCheck {
     GridCheck {
         id: id.to_string(),
